@@ -99,6 +99,12 @@ def _run_variant(args):
     return (v['id'], 'missed', keys)
 
 
+def _run_chunk(args):
+    prop, chunk = args
+    load_variants(prop)
+    return [_run_variant((prop, v)) for v in chunk]
+
+
 def load_variants(prop: str) -> list:
     try:
         importlib.import_module(f'selftest.{prop.lower()}')
@@ -107,7 +113,8 @@ def load_variants(prop: str) -> list:
     return VARIANTS.get(prop, [])
 
 
-def run_for(prop: str, ctx, seed: int, jobs: int = 16) -> None:
+def run_for(prop: str, ctx, seed: int, jobs: int = 16, repo=None) -> None:
+    global _BASE
     vs = load_variants(prop)
     if not vs:
         ctx.extra['selftest'] = {'variants': 0}
@@ -116,8 +123,20 @@ def run_for(prop: str, ctx, seed: int, jobs: int = 16) -> None:
     if seed:
         import random
         random.Random(seed).shuffle(order)
-    with ProcessPoolExecutor(max_workers=min(jobs, len(order))) as ex:
-        results = list(ex.map(_run_variant, [(prop, v) for v in order]))
+    if _BASE is None:
+        _BASE = repo if repo is not None and not repo.overlay \
+            else model.Repo()
+    jobs = min(jobs, 6, (len(order) + 9) // 10)
+    if jobs <= 1:
+        results = [_run_variant((prop, v)) for v in order]
+    else:
+        import multiprocessing
+        chunks = [order[i::jobs] for i in range(jobs)]
+        with ProcessPoolExecutor(
+                max_workers=jobs,
+                mp_context=multiprocessing.get_context('spawn')) as ex:
+            parts = list(ex.map(_run_chunk, [(prop, c) for c in chunks]))
+        results = [r for part in parts for r in part]
     summary = {'variants': len(results), 'fired': 0, 'silent': 0,
                'stale': [], 'missed': [], 'false_alarm': [], 'errors': []}
     for vid, status, keys in results:
